@@ -25,9 +25,17 @@ CLAIMED = {
   "text": "Gate-by-precondition over the real text of SendLastStateProofProcess::execute (300 lines), check_if_response_is_matched, check_continuous_headers, verify_mmr_proof, check_chain_root_for_headers, check_pow_for_headers, check_verifiable_header, patched_is_valid, is_parent_of, commit_prove_state, get_last_state_proof, process_last_state: the only writers of trusted chain state (peer prove state, stored tip, index rollback) require the evidence predicate ps_trusted, whose introduction rule is the conjunction the property statement lists (answers the outstanding request; every header PoW-valid and committing to its chain root; reorg and last-N sections continuous; MMR proof binds all headers to the chain root committed by the requested last header; sections have exactly the requested shape - proved against a closed spec shape_ok incl. the sample/difficulty matching loop; tau and total-difficulty evidence). Verus proves that every path of the handler reaching a writer carries all of it, for every response, peer state and stored state.",
   "note": "Uninterpreted crypto predicates; molecule/storage/peer-table shims; iterator adapters lowered to assumed helpers; definitions of the evidence predicates are trusted text derived from the property. Found and fixed while proving: S1b (4e1a4f2), S1e/S1f (f66b534), S1h (slice panic).",
   "ref": "DESIGN.md 5-C01"},
+ "C03": {
+  "text": "Partial: contract on the real text of Storage::filter_block: for every block, registered script set and store content the committed write batch is exactly the prescribed index update (per input that spends a registered script's output: delete the live cell keyed by its CREATING block/tx/output index, add the history entry of the spending position, store the transaction; per output of a registered script: add live cell, history entry, transaction; same-block chains resolved through the earlier transactions of the block; header stored iff something matched), with the real key encoder proved against the documented layout.",
+  "note": "The whole-history statement (index equals the chain) is not decided; S11 (re-examined blocks re-create spent cells of already-synced scripts) is a listed known finding.",
+  "ref": "DESIGN.md 5-C03"},
+ "C13": {
+  "text": "Partial (key layout only): the real encoder From<Key> for Vec<u8> / append_key / Key::into_vec produces exactly prefix | script raw data | number be64 | tx_index be32 | io_index be32 [| io_type] for every key.",
+  "note": "Pagination, ordering, filters, grouping and capacity sums in service.rs are NOT under contract.",
+  "ref": "DESIGN.md 5-C13"},
  "C04": {
-  "text": "Partial: contracts on the real text of commit_prove_state (fork-point search via stored last-N headers, rollback target, long-fork result) and the callers' gates: the index is rolled back only to <= fork point + 1 where the fork point is the highest reorg header equal to a remembered last-N header (or to block 1 when the previous tip is block 1); Ok(false) is returned only if no reorg header is remembered and then the stored tip writer is not reached with reorg evidence; the stored tip moves only to a strictly heavier trusted state.",
-  "note": "Storage::rollback_to_block itself, pruning effects on stored matched-block records, liveness ('never gets stuck') and build_prove_request_content's rebasing are NOT decided here.",
+  "text": "Partial: contract on the real text of Storage::rollback_to_block (for every store content the committed batch is exactly: per registered script whose progress reached the fork point, per history entry of exactly that script in a block >= to_number, newest first: an output entry deletes the cell it created and the entry, an input entry re-creates the spent cell under its CREATING block/tx/output index and deletes the entry; script progress := to_number; filter progress := to_number - 1) and contracts on the real text of commit_prove_state (fork-point search via stored last-N headers, rollback target, long-fork result) and the callers' gates: the index is rolled back only to <= fork point + 1 where the fork point is the highest reorg header equal to a remembered last-N header (or to block 1 when the previous tip is block 1); Ok(false) is returned only if no reorg header is remembered and then the stored tip writer is not reached with reorg evidence; the stored tip moves only to a strictly heavier trusted state.",
+  "note": "The composition over whole histories, pruning effects on stored matched-block records, liveness ('never gets stuck') and build_prove_request_content's rebasing are NOT decided here.",
   "ref": "DESIGN.md 5-C04"},
  "C10": {
   "text": "Partial: Verus's totality obligations (no arithmetic overflow on u64/u32/usize, no out-of-bounds index/slice, no unwrap/expect on None/Err, no reachable panic!, dependency calls that panic modelled as preconditions) are discharged for every function extracted in units difficulty, peer_state and proof_gate with NO assumption on peer-controlled inputs; the SendLastState and SendLastStateProof handlers are covered end to end. Five peer-triggerable panics were found this way and fixed (bdfa2f5, 4e1a4f2, f66b534, S1h); the U256-overflow sites reachable only with absurd difficulties are listed known findings (D2).",
@@ -44,8 +52,8 @@ CLAIMED = {
   "note": "Partial: block_hashes of the message (which block is downloaded for a matching filter) are NOT verified - named in evidence; the quorum behind 'agreed' hashes is C07 (not applicable). Found and fixed while proving: S1d, S1i, S1j, S1k.",
   "ref": "DESIGN.md 5-C06"},
  "C09": {
-  "text": "Partial (last sentence of the property only): Storage::update_block_number, which raises every registered script's recorded block number, is reached in BlockFiltersProcess::execute only when no matched-block record is stored (idle branch) or after a verified batch with no match while no matched block is waiting for download; proved for every message and state by gate-by-precondition on the real handler text.",
-  "note": "Storage::update_filter_scripts (set semantics, rewind rule, discarding pending blocks) is not under contract in this revision.",
+  "text": "Contracts on the real text of Storage::update_filter_scripts: for every store content and argument the committed batch is exactly the documented command (all: every stored script entry deleted, every given script stored with its start number; partial: the given scripts stored; delete: the given scripts removed); the filter progress is only written to values at or below the start numbers of the scripts named; the pending matched blocks are discarded only with the evidence that the filter progress stands at or below the block number of every script that remains registered (this gate fails on the code before fix S10). Plus the gate on update_block_number in BlockFiltersProcess::execute (a script's recorded height is raised only when no matched block is waiting).",
+  "note": "Missing calls (e.g. a deleted clear_matched_blocks) cannot be detected by preconditions; the RPC wrapper set_scripts is not under contract.",
   "ref": "DESIGN.md 5-C09"},
 
  "C15": {
